@@ -693,6 +693,14 @@ impl<'a> Gen<'a> {
                 let sweep = self.pc(self.p.sweep);
                 Op::Exec { sender, msg, sweep }
             }
+            1 if self.rng.chance(1, if self.p.s_inst >= 4 { 12 } else { 40 }) => {
+                // coins sent to the address the next contract will get, then the instantiation (in one batch,
+                // or, half of the time, as two transactions)
+                self.nodes_left = self.p.max_nodes;
+                let pay = MsgSpec::Send { to: Target::Next, coins: vec![CoinSpec { denom: 0, amt: Amt::Abs(1 + self.rng.below(5)) }] };
+                let inst = self.inst(0);
+                Op::Multi { sender, msgs: vec![pay, inst] }
+            }
             1 if self.p.s_bank >= 4 && self.rng.chance(1, 25) => {
                 // a long batch of small sends in which one recipient comes up again and again: one transaction
                 // with well over a hundred writes, many of them to the same keys
@@ -908,7 +916,7 @@ fn gen_case(rng: &mut Rng, cfg: &Cfg) -> Case {
     }
     let adv_rate = if cfg.property == "C08" || cfg.property == "C11" { 4 } else { 12 };
     let adv_addr = g.rng.chance(1, adv_rate);
-    Case { prefix: g.rng.below(4) as u8, n_accounts, n_denoms, n_validators, init_balances, module_faults, unbonding_secs, module_cfg, adv_addr, creator_checksums: g.rng.chance(1, 5), plain_accounts, ops }
+    Case { prefix: g.rng.below(4) as u8, n_accounts, n_denoms, n_validators, init_balances, module_faults, unbonding_secs, module_cfg, adv_addr, creator_checksums: g.rng.chance(1, 5), plain_accounts, focus: cfg.property.clone(), ops }
 }
 
 // ------------------------------------------------------------------ minimisation
